@@ -9,73 +9,69 @@
   temporary variable, `x op= e` for `x = x op e` keep the obligations true; a changed shift, mask,
   conversion, constant, operator or index does not.
 
-  Identifier numbers: parameters first, then locals in order of first appearance (`X.v_name`).
+  Identifier numbers: parameters, the loop variable, the loop-carried variables, then the others in
+  source order (`X.names` lists them).
 -/
 import Golib.Hash.GoSem
 
 namespace GoModel
 
-
+def loop_Hash.loopVar : Int := 1
+def loop_Hash.carried : List Nat := [2]
+def loop_Hash.init : Option Int := some 4294967295
 def loop_Hash.body : List GoSem.Stmt := [
-    .set 2 (.idx 0 (.var 1)),
-    .set 3 (.bin .bxor .u32 (.bin .shr .u32 (.var 3) (.lit 8)) (.conv .u32 (.conv .i32 (.idx 1000 (.conv .u8 (.bin .bxor .u32 (.var 3) (.conv .u32 (.var 2))))))))]
+    .set 3 (.idx 0 (.var 1)),
+    .set 2 (.bin .bxor .u32 (.bin .shr .u32 (.var 2) (.lit 8)) (.conv .u32 (.conv .i32 (.idx 1000 (.conv .u8 (.bin .bxor .u32 (.var 2) (.conv .u32 (.var 3))))))))]
 def loop_Hash.after : List GoSem.Stmt := [
-    .set 3 (.bin .bxor .u32 (.var 3) (.lit 4294967295)),
-    .ret (.conv .i32 (.var 3))]
-def loop_Hash.v_bytes : Nat := 0
-def loop_Hash.v_i : Nat := 1
-def loop_Hash.v_b : Nat := 2
-def loop_Hash.v_crc : Nat := 3
+    .set 2 (.bin .bxor .u32 (.var 2) (.lit 4294967295)),
+    .ret (.conv .i32 (.var 2))]
+def loop_Hash.header : List String := ["#1 := 0", "#1 < len(#0)", "#1++"]
+def loop_Hash.names : List (String × Nat) := [("bytes", 0), ("i", 1), ("crc", 2), ("b", 3)]
 
-def init_Hash : Option Int := some 4294967295
+def loop_Hash64.loopVar : Int := 1
+def loop_Hash64.carried : List Nat := [2]
+def loop_Hash64.init : Option Int := some 18446744073709551615
 def loop_Hash64.body : List GoSem.Stmt := [
-    .set 2 (.idx 0 (.var 1)),
-    .set 3 (.bin .bxor .u64 (.bin .shr .u64 (.var 3) (.lit 8)) (.conv .u64 (.conv .i32 (.idx 1000 (.conv .u8 (.bin .bxor .u64 (.var 3) (.conv .u64 (.var 2))))))))]
+    .set 3 (.idx 0 (.var 1)),
+    .set 2 (.bin .bxor .u64 (.bin .shr .u64 (.var 2) (.lit 8)) (.conv .u64 (.conv .i32 (.idx 1000 (.conv .u8 (.bin .bxor .u64 (.var 2) (.conv .u64 (.var 3))))))))]
 def loop_Hash64.after : List GoSem.Stmt := [
-    .set 3 (.bin .bxor .u64 (.var 3) (.lit 18446744073709551615)),
-    .ret (.conv .i64 (.var 3))]
-def loop_Hash64.v_bytes : Nat := 0
-def loop_Hash64.v_i : Nat := 1
-def loop_Hash64.v_b : Nat := 2
-def loop_Hash64.v_crc : Nat := 3
+    .set 2 (.bin .bxor .u64 (.var 2) (.lit 18446744073709551615)),
+    .ret (.conv .i64 (.var 2))]
+def loop_Hash64.header : List String := ["#1 := 0", "#1 < len(#0)", "#1++"]
+def loop_Hash64.names : List (String × Nat) := [("bytes", 0), ("i", 1), ("crc", 2), ("b", 3)]
 
-def init_Hash64 : Option Int := some 18446744073709551615
+def loop_Hash64v2.loopVar : Int := 1
+def loop_Hash64v2.carried : List Nat := [2]
+def loop_Hash64v2.init : Option Int := some 18446744073709551615
 def loop_Hash64v2.body : List GoSem.Stmt := [
-    .set 2 (.idx 0 (.var 1)),
-    .set 3 (.bin .shr .u64 (.var 3) (.lit 8)),
-    .set 4 (.conv .u64 (.idx 1000 (.conv .u8 (.bin .bxor .i32 (.conv .i32 (.var 3)) (.conv .i32 (.var 2)))))),
-    .set 5 (.conv .u64 (.idx 1000 (.conv .u8 (.bin .bxor .i32 (.conv .i32 (.bin .shr .u64 (.var 3) (.lit 32))) (.conv .i32 (.var 2)))))),
-    .set 3 (.bin .bxor .u64 (.var 3) (.bin .band .u64 (.var 4) (.lit 4294967295))),
-    .set 3 (.bin .bxor .u64 (.var 3) (.bin .shl .u64 (.var 5) (.lit 32)))]
+    .set 3 (.idx 0 (.var 1)),
+    .set 2 (.bin .shr .u64 (.var 2) (.lit 8)),
+    .set 4 (.conv .u64 (.idx 1000 (.conv .u8 (.bin .bxor .i32 (.conv .i32 (.var 2)) (.conv .i32 (.var 3)))))),
+    .set 5 (.conv .u64 (.idx 1000 (.conv .u8 (.bin .bxor .i32 (.conv .i32 (.bin .shr .u64 (.var 2) (.lit 32))) (.conv .i32 (.var 3)))))),
+    .set 2 (.bin .bxor .u64 (.var 2) (.bin .band .u64 (.var 4) (.lit 4294967295))),
+    .set 2 (.bin .bxor .u64 (.var 2) (.bin .shl .u64 (.var 5) (.lit 32)))]
 def loop_Hash64v2.after : List GoSem.Stmt := [
-    .set 3 (.bin .bxor .u64 (.var 3) (.lit 18446744073709551615)),
-    .ret (.conv .i64 (.var 3))]
-def loop_Hash64v2.v_bytes : Nat := 0
-def loop_Hash64v2.v_i : Nat := 1
-def loop_Hash64v2.v_b : Nat := 2
-def loop_Hash64v2.v_crc : Nat := 3
-def loop_Hash64v2.v_n1 : Nat := 4
-def loop_Hash64v2.v_n2 : Nat := 5
+    .set 2 (.bin .bxor .u64 (.var 2) (.lit 18446744073709551615)),
+    .ret (.conv .i64 (.var 2))]
+def loop_Hash64v2.header : List String := ["#1 := 0", "#1 < len(#0)", "#1++"]
+def loop_Hash64v2.names : List (String × Nat) := [("bytes", 0), ("i", 1), ("crc", 2), ("b", 3), ("n1", 4), ("n2", 5)]
 
-def init_Hash64v2 : Option Int := some 18446744073709551615
+def loop_Hash64V2.loopVar : Int := 1
+def loop_Hash64V2.carried : List Nat := [2]
+def loop_Hash64V2.init : Option Int := some 18446744073709551615
 def loop_Hash64V2.body : List GoSem.Stmt := [
-    .set 1 (.bin .shr .u64 (.var 1) (.lit 8)),
-    .set 3 (.idx 0 (.var 2)),
-    .set 4 (.conv .u64 (.idx 1000 (.bin .band .u8 (.bin .bxor .u8 (.conv .u8 (.var 1)) (.var 3)) (.lit 255)))),
-    .set 5 (.conv .u64 (.idx 1000 (.bin .band .u8 (.bin .bxor .u8 (.conv .u8 (.bin .shr .u64 (.var 1) (.lit 32))) (.var 3)) (.lit 255)))),
-    .set 1 (.bin .bxor .u64 (.var 1) (.bin .band .u64 (.var 4) (.lit 4294967295))),
-    .set 1 (.bin .bxor .u64 (.var 1) (.bin .shl .u64 (.var 5) (.lit 32)))]
+    .set 2 (.bin .shr .u64 (.var 2) (.lit 8)),
+    .set 3 (.idx 0 (.var 1)),
+    .set 4 (.conv .u64 (.idx 1000 (.bin .band .u8 (.bin .bxor .u8 (.conv .u8 (.var 2)) (.var 3)) (.lit 255)))),
+    .set 5 (.conv .u64 (.idx 1000 (.bin .band .u8 (.bin .bxor .u8 (.conv .u8 (.bin .shr .u64 (.var 2) (.lit 32))) (.var 3)) (.lit 255)))),
+    .set 2 (.bin .bxor .u64 (.var 2) (.bin .band .u64 (.var 4) (.lit 4294967295))),
+    .set 2 (.bin .bxor .u64 (.var 2) (.bin .shl .u64 (.var 5) (.lit 32)))]
 def loop_Hash64V2.after : List GoSem.Stmt := [
-    .set 1 (.bin .bxor .u64 (.var 1) (.lit 18446744073709551615)),
-    .ret (.conv .i64 (.var 1))]
-def loop_Hash64V2.v_bytes : Nat := 0
-def loop_Hash64V2.v_crc : Nat := 1
-def loop_Hash64V2.v_i : Nat := 2
-def loop_Hash64V2.v_b : Nat := 3
-def loop_Hash64V2.v_n1 : Nat := 4
-def loop_Hash64V2.v_n2 : Nat := 5
+    .set 2 (.bin .bxor .u64 (.var 2) (.lit 18446744073709551615)),
+    .ret (.conv .i64 (.var 2))]
+def loop_Hash64V2.header : List String := ["#1 := 0", "#1 < len(#0)", "#1++"]
+def loop_Hash64V2.names : List (String × Nat) := [("bytes", 0), ("i", 1), ("crc", 2), ("b", 3), ("n1", 4), ("n2", 5)]
 
-def init_Hash64V2 : Option Int := some 18446744073709551615
 def fn_ToInt : GoSem.Fn :=
   { params := [], result := .i32, body := [
     .set 1 (.conv .i32 (.idx 0 (.lit 0))),
@@ -83,11 +79,7 @@ def fn_ToInt : GoSem.Fn :=
     .set 3 (.conv .i32 (.idx 0 (.lit 2))),
     .set 4 (.conv .i32 (.idx 0 (.lit 3))),
     .ret (.conv .i32 (.bin .add .i32 (.bin .add .i32 (.bin .add .i32 (.bin .shl .i32 (.var 1) (.lit 24)) (.bin .shl .i32 (.var 2) (.lit 16))) (.bin .shl .i32 (.var 3) (.lit 8))) (.bin .shl .i32 (.var 4) (.lit 0))))] }
-def fn_ToInt.v_buf : Nat := 0
-def fn_ToInt.v_ch1 : Nat := 1
-def fn_ToInt.v_ch2 : Nat := 2
-def fn_ToInt.v_ch3 : Nat := 3
-def fn_ToInt.v_ch4 : Nat := 4
+def fn_ToInt.names : List (String × Nat) := [("buf", 0), ("ch1", 1), ("ch2", 2), ("ch3", 3), ("ch4", 4)]
 
 def fn_ToLong : GoSem.Fn :=
   { params := [], result := .i64, body := [
@@ -100,23 +92,24 @@ def fn_ToLong : GoSem.Fn :=
     .set 1 (.bin .add .i64 (.var 1) (.bin .shl .i64 (.conv .i64 (.idx 0 (.lit 6))) (.lit 8))),
     .set 1 (.bin .add .i64 (.var 1) (.bin .shl .i64 (.conv .i64 (.idx 0 (.lit 7))) (.lit 0))),
     .ret (.var 1)] }
-def fn_ToLong.v_buf : Nat := 0
-def fn_ToLong.v_v : Nat := 1
+def fn_ToLong.names : List (String × Nat) := [("buf", 0), ("v", 1)]
 
 def wrapper_HashStr : String × Option Int := ("Hash", none)
 def wrapper_Hash64Str : String × Option Int := ("Hash64", none)
 def wrapper_Hash64StrV2 : String × Option Int := ("Hash64V2", none)
 def wrapper_GetLongHash : String × Option Int := ("Hash64v2", some 0)
 
+def loop_HashCode.loopVar : Int := 1
+def loop_HashCode.carried : List Nat := [2]
+def loop_HashCode.init : Option Int := some 0
 def loop_HashCode.pre : List GoSem.Stmt := [
-    .set 1 (.lit 0)]
+    .set 2 (.lit 0)]
 def loop_HashCode.body : List GoSem.Stmt := [
-    .set 1 (.bin .add .i64 (.bin .mul .i64 (.lit 31) (.var 1)) (.conv .i64 (.idx 0 (.var 2))))]
+    .set 2 (.bin .add .i64 (.bin .mul .i64 (.lit 31) (.var 2)) (.conv .i64 (.idx 0 (.var 1))))]
 def loop_HashCode.after : List GoSem.Stmt := [
-    .ret (.var 1)]
-def loop_HashCode.v_s : Nat := 0
-def loop_HashCode.v_h : Nat := 1
-def loop_HashCode.v_i : Nat := 2
+    .ret (.var 2)]
+def loop_HashCode.header : List String := ["#1 := 0", "#1 < len(#0)", "#1++"]
+def loop_HashCode.names : List (String × Nat) := [("s", 0), ("i", 1), ("h", 2)]
 
 def plusChar : Option Nat := some 120
 def minusChar : Option Nat := some 122
@@ -124,39 +117,32 @@ def toString32Texts : List String := ["z8000000000000", "z", "x"]
 def toLong32Texts : List String := ["", "z8000000000000"]
 
 def loop_to_str.pre : List GoSem.Stmt := [
-    .set 1 (.lit 32),
-    .set 2 (.lit 64)]
+    .set 2 (.lit 32),
+    .set 1 (.lit 64)]
 def loop_to_str.init : List GoSem.Stmt := [
     .set 0 (.neg .i64 (.var 0))]
-def loop_to_str.cond : GoSem.Cond := (.le (.var 0) (.neg .i64 (.var 1)))
+def loop_to_str.cond : GoSem.Cond := (.le (.var 0) (.neg .i64 (.var 2)))
 def loop_to_str.post : List GoSem.Stmt := [
-    .set 0 (.bin .quo .i64 (.var 0) (.var 1))]
+    .set 0 (.bin .quo .i64 (.var 0) (.var 2))]
 def loop_to_str.body : List GoSem.Stmt := [
-    .set 3 (.idx 1001 (.conv .i64 (.neg .i64 (.bin .rem .i64 (.var 0) (.var 1))))),
-    .set 2 (.bin .sub .i64 (.var 2) (.lit 1))]
+    .set 3 (.idx 1001 (.conv .i64 (.neg .i64 (.bin .rem .i64 (.var 0) (.var 2))))),
+    .set 1 (.bin .sub .i64 (.var 1) (.lit 1))]
 def loop_to_str.after : List GoSem.Stmt := [
     .set 3 (.idx 1001 (.conv .i64 (.neg .i64 (.var 0))))]
-def loop_to_str.v_i : Nat := 0
-def loop_to_str.v_radix : Nat := 1
-def loop_to_str.v_charPos : Nat := 2
-def loop_to_str.v_buf_stored : Nat := 3
+def loop_to_str.names : List (String × Nat) := [("i", 0), ("charPos", 1), ("radix", 2), ("buf@", 3)]
 
 def loop_to_long.pre : List GoSem.Stmt := [
-    .set 1 (.lit 0),
-    .set 2 (.lit (-9223372036854775807)),
-    .set 3 (.bin .quo .i64 (.var 2) (.lit 32))]
+    .set 2 (.lit 0),
+    .set 3 (.lit (-9223372036854775807)),
+    .set 4 (.bin .quo .i64 (.var 3) (.lit 32))]
 def loop_to_long.body : List GoSem.Stmt := [
-    .retIf (.lt (.var 1) (.var 3)) (.lit 0),
-    .set 1 (.bin .mul .i64 (.var 1) (.lit 32)),
-    .retIf (.lt (.var 1) (.bin .add .i64 (.var 2) (.var 4))) (.lit 0),
-    .set 1 (.bin .sub .i64 (.var 1) (.var 4))]
+    .retIf (.lt (.var 2) (.var 4)) (.lit 0),
+    .set 2 (.bin .mul .i64 (.var 2) (.lit 32)),
+    .retIf (.lt (.var 2) (.bin .add .i64 (.var 3) (.var 5))) (.lit 0),
+    .set 2 (.bin .sub .i64 (.var 2) (.var 5))]
 def loop_to_long.after : List GoSem.Stmt := [
-    .ret (.neg .i64 (.var 1))]
-def loop_to_long.v_s : Nat := 0
-def loop_to_long.v_result : Nat := 1
-def loop_to_long.v_limit : Nat := 2
-def loop_to_long.v_multmin : Nat := 3
-def loop_to_long.v_digit : Nat := 4
+    .ret (.neg .i64 (.var 2))]
+def loop_to_long.names : List (String × Nat) := [("s", 0), ("i", 1), ("result", 2), ("limit", 3), ("multmin", 4), ("digit", 5)]
 
 def fn_findc : GoSem.Fn :=
   { params := [(0, .i64)], result := .i64, body := [
@@ -165,13 +151,16 @@ def fn_findc : GoSem.Fn :=
     .retIf (.and (.le (.lit 65) (.var 0)) (.le (.var 0) (.lit 90))) (.conv .i64 (.bin .add .i64 (.bin .sub .i64 (.var 0) (.lit 65)) (.lit 10))),
     .ret (.lit 0)] }
 
+def loop_murmurHash.loopVar : Int := 3
+def loop_murmurHash.carried : List Nat := [4]
+def loop_murmurHash.init : Option Int := none
 def loop_murmurHash.pre : List GoSem.Stmt := [
-    .set 3 (.lit 1540483477),
-    .set 4 (.lit 24),
-    .set 5 (.bin .bxor .u32 (.var 2) (.conv .u32 (.var 1))),
-    .set 6 (.bin .shr .u32 (.conv .u32 (.var 1)) (.lit 2))]
+    .set 5 (.lit 1540483477),
+    .set 6 (.lit 24),
+    .set 4 (.bin .bxor .u32 (.var 2) (.conv .u32 (.var 1))),
+    .set 7 (.bin .shr .u32 (.conv .u32 (.var 1)) (.lit 2))]
 def loop_murmurHash.body : List GoSem.Stmt := [
-    .set 8 (.bin .shl .i64 (.var 7) (.lit 2)),
+    .set 8 (.bin .shl .i64 (.var 3) (.lit 2)),
     .set 9 (.conv .u32 (.idx 0 (.bin .add .i64 (.var 8) (.lit 3)))),
     .set 9 (.bin .shl .u32 (.var 9) (.lit 8)),
     .set 9 (.bin .bor .u32 (.var 9) (.bin .band .u32 (.conv .u32 (.idx 0 (.bin .add .i64 (.var 8) (.lit 2)))) (.lit 255))),
@@ -179,71 +168,56 @@ def loop_murmurHash.body : List GoSem.Stmt := [
     .set 9 (.bin .bor .u32 (.var 9) (.bin .band .u32 (.conv .u32 (.idx 0 (.bin .add .i64 (.var 8) (.lit 1)))) (.lit 255))),
     .set 9 (.bin .shl .u32 (.var 9) (.lit 8)),
     .set 9 (.bin .bor .u32 (.var 9) (.bin .band .u32 (.conv .u32 (.idx 0 (.bin .add .i64 (.var 8) (.lit 0)))) (.lit 255))),
-    .set 9 (.bin .mul .u32 (.var 9) (.var 3)),
-    .set 9 (.bin .bxor .u32 (.var 9) (.bin .shr .u32 (.var 9) (.var 4))),
-    .set 9 (.bin .mul .u32 (.var 9) (.var 3)),
-    .set 5 (.bin .mul .u32 (.var 5) (.var 3)),
-    .set 5 (.bin .bxor .u32 (.var 5) (.var 9))]
+    .set 9 (.bin .mul .u32 (.var 9) (.var 5)),
+    .set 9 (.bin .bxor .u32 (.var 9) (.bin .shr .u32 (.var 9) (.var 6))),
+    .set 9 (.bin .mul .u32 (.var 9) (.var 5)),
+    .set 4 (.bin .mul .u32 (.var 4) (.var 5)),
+    .set 4 (.bin .bxor .u32 (.var 4) (.var 9))]
 def loop_murmurHash.after : List GoSem.Stmt := [
-    .set 10 (.bin .shl .u32 (.var 6) (.lit 2)),
+    .set 10 (.bin .shl .u32 (.var 7) (.lit 2)),
     .set 11 (.bin .sub .u32 (.conv .u32 (.var 1)) (.var 10)),
-    .setIf (.and (.ne (.var 11) (.lit 0)) (.le (.lit 3) (.var 11))) 5 (.bin .bxor .u32 (.var 5) (.bin .shl .u32 (.conv .u32 (.idx 0 (.bin .sub .i32 (.var 1) (.lit 3)))) (.lit 16))),
-    .setIf (.and (.ne (.var 11) (.lit 0)) (.le (.lit 2) (.var 11))) 5 (.bin .bxor .u32 (.var 5) (.bin .shl .u32 (.conv .u32 (.idx 0 (.bin .sub .i32 (.var 1) (.lit 2)))) (.lit 8))),
-    .setIf (.and (.ne (.var 11) (.lit 0)) (.le (.lit 1) (.var 11))) 5 (.bin .bxor .u32 (.var 5) (.conv .u32 (.idx 0 (.bin .sub .i32 (.var 1) (.lit 1))))),
-    .setIf (.ne (.var 11) (.lit 0)) 5 (.bin .mul .u32 (.var 5) (.var 3)),
-    .set 5 (.bin .bxor .u32 (.var 5) (.bin .shr .u32 (.var 5) (.lit 13))),
-    .set 5 (.bin .mul .u32 (.var 5) (.var 3)),
-    .set 5 (.bin .bxor .u32 (.var 5) (.bin .shr .u32 (.var 5) (.lit 15))),
-    .ret (.var 5)]
-def loop_murmurHash.v_data : Nat := 0
-def loop_murmurHash.v_length : Nat := 1
-def loop_murmurHash.v_seed : Nat := 2
-def loop_murmurHash.v_m : Nat := 3
-def loop_murmurHash.v_r : Nat := 4
-def loop_murmurHash.v_h : Nat := 5
-def loop_murmurHash.v_len_4 : Nat := 6
-def loop_murmurHash.v_i : Nat := 7
-def loop_murmurHash.v_i_4 : Nat := 8
-def loop_murmurHash.v_k : Nat := 9
-def loop_murmurHash.v_len_m : Nat := 10
-def loop_murmurHash.v_left : Nat := 11
+    .setIf (.and (.ne (.var 11) (.lit 0)) (.le (.lit 3) (.var 11))) 4 (.bin .bxor .u32 (.var 4) (.bin .shl .u32 (.conv .u32 (.idx 0 (.bin .sub .i32 (.var 1) (.lit 3)))) (.lit 16))),
+    .setIf (.and (.ne (.var 11) (.lit 0)) (.le (.lit 2) (.var 11))) 4 (.bin .bxor .u32 (.var 4) (.bin .shl .u32 (.conv .u32 (.idx 0 (.bin .sub .i32 (.var 1) (.lit 2)))) (.lit 8))),
+    .setIf (.and (.ne (.var 11) (.lit 0)) (.le (.lit 1) (.var 11))) 4 (.bin .bxor .u32 (.var 4) (.conv .u32 (.idx 0 (.bin .sub .i32 (.var 1) (.lit 1))))),
+    .setIf (.ne (.var 11) (.lit 0)) 4 (.bin .mul .u32 (.var 4) (.var 5)),
+    .set 4 (.bin .bxor .u32 (.var 4) (.bin .shr .u32 (.var 4) (.lit 13))),
+    .set 4 (.bin .mul .u32 (.var 4) (.var 5)),
+    .set 4 (.bin .bxor .u32 (.var 4) (.bin .shr .u32 (.var 4) (.lit 15))),
+    .ret (.var 4)]
+def loop_murmurHash.header : List String := ["#3 := 0", "#3 < int(#7)", "#3++"]
+def loop_murmurHash.names : List (String × Nat) := [("data", 0), ("length", 1), ("seed", 2), ("i", 3), ("h", 4), ("m", 5), ("r", 6), ("len_4", 7), ("i_4", 8), ("k", 9), ("len_m", 10), ("left", 11)]
 
+def loop_murmurHashLong.loopVar : Int := 3
+def loop_murmurHashLong.carried : List Nat := [4]
+def loop_murmurHashLong.init : Option Int := none
 def loop_murmurHashLong.pre : List GoSem.Stmt := [
-    .set 3 (.lit 14313749767032793493),
-    .set 4 (.lit 47),
-    .set 5 (.bin .bxor .u64 (.conv .u64 (.bin .band .u32 (.var 2) (.lit 4294967295))) (.bin .mul .u64 (.conv .u64 (.var 1)) (.var 3))),
-    .set 6 (.bin .quo .i32 (.var 1) (.lit 8))]
+    .set 5 (.lit 14313749767032793493),
+    .set 6 (.lit 47),
+    .set 4 (.bin .bxor .u64 (.conv .u64 (.bin .band .u32 (.var 2) (.lit 4294967295))) (.bin .mul .u64 (.conv .u64 (.var 1)) (.var 5))),
+    .set 7 (.bin .quo .i32 (.var 1) (.lit 8))]
 def loop_murmurHashLong.body : List GoSem.Stmt := [
-    .set 8 (.bin .mul .i64 (.var 7) (.lit 8)),
+    .set 8 (.bin .mul .i64 (.var 3) (.lit 8)),
     .set 9 (.bin .add .u64 (.bin .add .u64 (.bin .add .u64 (.bin .add .u64 (.bin .add .u64 (.bin .add .u64 (.bin .add .u64 (.bin .band .u64 (.conv .u64 (.idx 0 (.bin .add .i64 (.var 8) (.lit 0)))) (.lit 255)) (.bin .shl .u64 (.bin .band .u64 (.conv .u64 (.idx 0 (.bin .add .i64 (.var 8) (.lit 1)))) (.lit 255)) (.lit 8))) (.bin .shl .u64 (.bin .band .u64 (.conv .u64 (.idx 0 (.bin .add .i64 (.var 8) (.lit 2)))) (.lit 255)) (.lit 16))) (.bin .shl .u64 (.bin .band .u64 (.conv .u64 (.idx 0 (.bin .add .i64 (.var 8) (.lit 3)))) (.lit 255)) (.lit 24))) (.bin .shl .u64 (.bin .band .u64 (.conv .u64 (.idx 0 (.bin .add .i64 (.var 8) (.lit 4)))) (.lit 255)) (.lit 32))) (.bin .shl .u64 (.bin .band .u64 (.conv .u64 (.idx 0 (.bin .add .i64 (.var 8) (.lit 5)))) (.lit 255)) (.lit 40))) (.bin .shl .u64 (.bin .band .u64 (.conv .u64 (.idx 0 (.bin .add .i64 (.var 8) (.lit 6)))) (.lit 255)) (.lit 48))) (.bin .shl .u64 (.bin .band .u64 (.conv .u64 (.idx 0 (.bin .add .i64 (.var 8) (.lit 7)))) (.lit 255)) (.lit 56))),
-    .set 9 (.bin .mul .u64 (.var 9) (.var 3)),
-    .set 9 (.bin .bxor .u64 (.var 9) (.bin .shr .u64 (.var 9) (.var 4))),
-    .set 9 (.bin .mul .u64 (.var 9) (.var 3)),
-    .set 5 (.bin .bxor .u64 (.var 5) (.var 9)),
-    .set 5 (.bin .mul .u64 (.var 5) (.var 3))]
+    .set 9 (.bin .mul .u64 (.var 9) (.var 5)),
+    .set 9 (.bin .bxor .u64 (.var 9) (.bin .shr .u64 (.var 9) (.var 6))),
+    .set 9 (.bin .mul .u64 (.var 9) (.var 5)),
+    .set 4 (.bin .bxor .u64 (.var 4) (.var 9)),
+    .set 4 (.bin .mul .u64 (.var 4) (.var 5))]
 def loop_murmurHashLong.after : List GoSem.Stmt := [
-    .setIf (.oneOf (.bin .rem .i32 (.var 1) (.lit 8)) [7]) 5 (.bin .bxor .u64 (.var 5) (.bin .shl .u64 (.bin .band .u64 (.conv .u64 (.idx 0 (.bin .add .i32 (.bin .band .i32 (.var 1) (.lit (-8))) (.lit 6)))) (.lit 255)) (.lit 48))),
-    .setIf (.oneOf (.bin .rem .i32 (.var 1) (.lit 8)) [7, 6]) 5 (.bin .bxor .u64 (.var 5) (.bin .shl .u64 (.conv .u64 (.bin .band .u8 (.idx 0 (.bin .add .i32 (.bin .band .i32 (.var 1) (.lit (-8))) (.lit 5))) (.lit 255))) (.lit 40))),
-    .setIf (.oneOf (.bin .rem .i32 (.var 1) (.lit 8)) [7, 6, 5]) 5 (.bin .bxor .u64 (.var 5) (.bin .shl .u64 (.conv .u64 (.bin .band .u8 (.idx 0 (.bin .add .i32 (.bin .band .i32 (.var 1) (.lit (-8))) (.lit 4))) (.lit 255))) (.lit 32))),
-    .setIf (.oneOf (.bin .rem .i32 (.var 1) (.lit 8)) [7, 6, 5, 4]) 5 (.bin .bxor .u64 (.var 5) (.bin .shl .u64 (.conv .u64 (.bin .band .u8 (.idx 0 (.bin .add .i32 (.bin .band .i32 (.var 1) (.lit (-8))) (.lit 3))) (.lit 255))) (.lit 24))),
-    .setIf (.oneOf (.bin .rem .i32 (.var 1) (.lit 8)) [7, 6, 5, 4, 3]) 5 (.bin .bxor .u64 (.var 5) (.bin .shl .u64 (.conv .u64 (.bin .band .u8 (.idx 0 (.bin .add .i32 (.bin .band .i32 (.var 1) (.lit (-8))) (.lit 2))) (.lit 255))) (.lit 16))),
-    .setIf (.oneOf (.bin .rem .i32 (.var 1) (.lit 8)) [7, 6, 5, 4, 3, 2]) 5 (.bin .bxor .u64 (.var 5) (.bin .shl .u64 (.conv .u64 (.bin .band .u8 (.idx 0 (.bin .add .i32 (.bin .band .i32 (.var 1) (.lit (-8))) (.lit 1))) (.lit 255))) (.lit 8))),
-    .setIf (.oneOf (.bin .rem .i32 (.var 1) (.lit 8)) [7, 6, 5, 4, 3, 2, 1]) 5 (.bin .bxor .u64 (.var 5) (.conv .u64 (.bin .band .u8 (.idx 0 (.bin .band .i32 (.var 1) (.lit (-8)))) (.lit 255)))),
-    .setIf (.oneOf (.bin .rem .i32 (.var 1) (.lit 8)) [7, 6, 5, 4, 3, 2, 1]) 5 (.bin .mul .u64 (.var 5) (.var 3)),
-    .set 5 (.bin .bxor .u64 (.var 5) (.bin .shr .u64 (.var 5) (.var 4))),
-    .set 5 (.bin .mul .u64 (.var 5) (.var 3)),
-    .set 5 (.bin .bxor .u64 (.var 5) (.bin .shr .u64 (.var 5) (.var 4))),
-    .ret (.var 5)]
-def loop_murmurHashLong.v_data : Nat := 0
-def loop_murmurHashLong.v_length : Nat := 1
-def loop_murmurHashLong.v_seed : Nat := 2
-def loop_murmurHashLong.v_m : Nat := 3
-def loop_murmurHashLong.v_r : Nat := 4
-def loop_murmurHashLong.v_h : Nat := 5
-def loop_murmurHashLong.v_length8 : Nat := 6
-def loop_murmurHashLong.v_i : Nat := 7
-def loop_murmurHashLong.v_i8 : Nat := 8
-def loop_murmurHashLong.v_k : Nat := 9
+    .setIf (.oneOf (.bin .rem .i32 (.var 1) (.lit 8)) [7]) 4 (.bin .bxor .u64 (.var 4) (.bin .shl .u64 (.bin .band .u64 (.conv .u64 (.idx 0 (.bin .add .i32 (.bin .band .i32 (.var 1) (.lit (-8))) (.lit 6)))) (.lit 255)) (.lit 48))),
+    .setIf (.oneOf (.bin .rem .i32 (.var 1) (.lit 8)) [7, 6]) 4 (.bin .bxor .u64 (.var 4) (.bin .shl .u64 (.conv .u64 (.bin .band .u8 (.idx 0 (.bin .add .i32 (.bin .band .i32 (.var 1) (.lit (-8))) (.lit 5))) (.lit 255))) (.lit 40))),
+    .setIf (.oneOf (.bin .rem .i32 (.var 1) (.lit 8)) [7, 6, 5]) 4 (.bin .bxor .u64 (.var 4) (.bin .shl .u64 (.conv .u64 (.bin .band .u8 (.idx 0 (.bin .add .i32 (.bin .band .i32 (.var 1) (.lit (-8))) (.lit 4))) (.lit 255))) (.lit 32))),
+    .setIf (.oneOf (.bin .rem .i32 (.var 1) (.lit 8)) [7, 6, 5, 4]) 4 (.bin .bxor .u64 (.var 4) (.bin .shl .u64 (.conv .u64 (.bin .band .u8 (.idx 0 (.bin .add .i32 (.bin .band .i32 (.var 1) (.lit (-8))) (.lit 3))) (.lit 255))) (.lit 24))),
+    .setIf (.oneOf (.bin .rem .i32 (.var 1) (.lit 8)) [7, 6, 5, 4, 3]) 4 (.bin .bxor .u64 (.var 4) (.bin .shl .u64 (.conv .u64 (.bin .band .u8 (.idx 0 (.bin .add .i32 (.bin .band .i32 (.var 1) (.lit (-8))) (.lit 2))) (.lit 255))) (.lit 16))),
+    .setIf (.oneOf (.bin .rem .i32 (.var 1) (.lit 8)) [7, 6, 5, 4, 3, 2]) 4 (.bin .bxor .u64 (.var 4) (.bin .shl .u64 (.conv .u64 (.bin .band .u8 (.idx 0 (.bin .add .i32 (.bin .band .i32 (.var 1) (.lit (-8))) (.lit 1))) (.lit 255))) (.lit 8))),
+    .setIf (.oneOf (.bin .rem .i32 (.var 1) (.lit 8)) [7, 6, 5, 4, 3, 2, 1]) 4 (.bin .bxor .u64 (.var 4) (.conv .u64 (.bin .band .u8 (.idx 0 (.bin .band .i32 (.var 1) (.lit (-8)))) (.lit 255)))),
+    .setIf (.oneOf (.bin .rem .i32 (.var 1) (.lit 8)) [7, 6, 5, 4, 3, 2, 1]) 4 (.bin .mul .u64 (.var 4) (.var 5)),
+    .set 4 (.bin .bxor .u64 (.var 4) (.bin .shr .u64 (.var 4) (.var 6))),
+    .set 4 (.bin .mul .u64 (.var 4) (.var 5)),
+    .set 4 (.bin .bxor .u64 (.var 4) (.bin .shr .u64 (.var 4) (.var 6))),
+    .ret (.var 4)]
+def loop_murmurHashLong.header : List String := ["#3 := 0", "#3 < int(#7)", "#3++"]
+def loop_murmurHashLong.names : List (String × Nat) := [("data", 0), ("length", 1), ("seed", 2), ("i", 3), ("h", 4), ("m", 5), ("r", 6), ("length8", 7), ("i8", 8), ("k", 9)]
 
 def fn_MurmurHashLong : GoSem.Fn :=
   { params := [(0, .u64)], result := .u32, body := [
@@ -261,11 +235,7 @@ def fn_MurmurHashLong : GoSem.Fn :=
     .set 3 (.bin .mul .u32 (.var 3) (.var 1)),
     .set 3 (.bin .bxor .u32 (.var 3) (.bin .shr .u32 (.var 3) (.lit 15))),
     .ret (.var 3)] }
-def fn_MurmurHashLong.v_data : Nat := 0
-def fn_MurmurHashLong.v_m : Nat := 1
-def fn_MurmurHashLong.v_r : Nat := 2
-def fn_MurmurHashLong.v_h : Nat := 3
-def fn_MurmurHashLong.v_k : Nat := 4
+def fn_MurmurHashLong.names : List (String × Nat) := [("data", 0), ("m", 1), ("r", 2), ("h", 3), ("k", 4)]
 
 def murmur_MurmurHashByte_seed : Option Nat := some 3782874213
 def murmur_MurmurHashLongByte_seed : Option Nat := some 3782874213
@@ -273,70 +243,61 @@ def murmur_MurmurHashLongByte_seed : Option Nat := some 3782874213
 def fn_Composite64 : GoSem.Fn :=
   { params := [(0, .i32), (1, .i32)], result := .i64, body := [
     .ret (.bin .bor .i64 (.bin .shl .i64 (.conv .i64 (.var 0)) (.lit 32)) (.bin .band .i64 (.conv .i64 (.var 1)) (.lit 4294967295)))] }
-def fn_Composite64.v_hkey : Nat := 0
-def fn_Composite64.v_wkey : Nat := 1
+def fn_Composite64.names : List (String × Nat) := [("hkey", 0), ("wkey", 1)]
 
 def fn_Composite32 : GoSem.Fn :=
   { params := [(0, .i16), (1, .i16)], result := .i32, body := [
     .ret (.bin .bor .i32 (.bin .shl .i32 (.conv .i32 (.var 0)) (.lit 16)) (.bin .band .i32 (.conv .i32 (.var 1)) (.lit 65535)))] }
-def fn_Composite32.v_hkey : Nat := 0
-def fn_Composite32.v_wkey : Nat := 1
+def fn_Composite32.names : List (String × Nat) := [("hkey", 0), ("wkey", 1)]
 
 def fn_Composite16 : GoSem.Fn :=
   { params := [(0, .u8), (1, .u8)], result := .i16, body := [
     .ret (.bin .bor .i16 (.bin .shl .i16 (.conv .i16 (.var 0)) (.lit 8)) (.bin .band .i16 (.conv .i16 (.var 1)) (.lit 255)))] }
-def fn_Composite16.v_hkey : Nat := 0
-def fn_Composite16.v_wkey : Nat := 1
+def fn_Composite16.names : List (String × Nat) := [("hkey", 0), ("wkey", 1)]
 
 def fn_SetHigh64 : GoSem.Fn :=
   { params := [(0, .i64), (1, .i32)], result := .i64, body := [
     .ret (.bin .bor .i64 (.bin .band .i64 (.var 0) (.lit 4294967295)) (.bin .shl .i64 (.conv .i64 (.var 1)) (.lit 32)))] }
-def fn_SetHigh64.v_src : Nat := 0
-def fn_SetHigh64.v_hkey : Nat := 1
+def fn_SetHigh64.names : List (String × Nat) := [("src", 0), ("hkey", 1)]
 
 def fn_SetLow64 : GoSem.Fn :=
   { params := [(0, .i64), (1, .i32)], result := .i64, body := [
     .set 2 (.lit 18446744069414584320),
     .ret (.bin .bor .i64 (.bin .band .i64 (.var 0) (.conv .i64 (.var 2))) (.bin .band .i64 (.conv .i64 (.var 1)) (.lit 4294967295)))] }
-def fn_SetLow64.v_src : Nat := 0
-def fn_SetLow64.v_wkey : Nat := 1
-def fn_SetLow64.v_x : Nat := 2
+def fn_SetLow64.names : List (String × Nat) := [("src", 0), ("wkey", 1), ("x", 2)]
 
 def fn_GetHigh64 : GoSem.Fn :=
   { params := [(0, .i64)], result := .i32, body := [
     .set 1 (.lit 4294967295),
     .ret (.bin .band .i32 (.conv .i32 (.bin .shr .i64 (.var 0) (.lit 32))) (.conv .i32 (.var 1)))] }
-def fn_GetHigh64.v_key : Nat := 0
-def fn_GetHigh64.v_x : Nat := 1
+def fn_GetHigh64.names : List (String × Nat) := [("key", 0), ("x", 1)]
 
 def fn_GetLow64 : GoSem.Fn :=
   { params := [(0, .i64)], result := .i32, body := [
     .set 1 (.lit 4294967295),
     .ret (.bin .band .i32 (.conv .i32 (.var 0)) (.conv .i32 (.var 1)))] }
-def fn_GetLow64.v_key : Nat := 0
-def fn_GetLow64.v_x : Nat := 1
+def fn_GetLow64.names : List (String × Nat) := [("key", 0), ("x", 1)]
 
 def fn_GetHigh32 : GoSem.Fn :=
   { params := [(0, .i32)], result := .i16, body := [
     .set 1 (.lit 65535),
     .ret (.bin .band .i16 (.conv .i16 (.bin .shr .i32 (.var 0) (.lit 16))) (.conv .i16 (.var 1)))] }
-def fn_GetHigh32.v_key : Nat := 0
-def fn_GetHigh32.v_x : Nat := 1
+def fn_GetHigh32.names : List (String × Nat) := [("key", 0), ("x", 1)]
 
 def fn_GetLow32 : GoSem.Fn :=
   { params := [(0, .i32)], result := .i16, body := [
     .ret (.conv .i16 (.bin .band .i32 (.var 0) (.lit 65535)))] }
-def fn_GetLow32.v_key : Nat := 0
+def fn_GetLow32.names : List (String × Nat) := [("key", 0)]
 
 def fn_GetHigh16 : GoSem.Fn :=
   { params := [(0, .i16)], result := .u8, body := [
     .ret (.conv .u8 (.bin .band .i16 (.bin .shr .i16 (.var 0) (.lit 8)) (.lit 255)))] }
-def fn_GetHigh16.v_key : Nat := 0
+def fn_GetHigh16.names : List (String × Nat) := [("key", 0)]
 
 def fn_GetLow16 : GoSem.Fn :=
   { params := [(0, .i16)], result := .u8, body := [
     .ret (.conv .u8 (.bin .band .i16 (.var 0) (.lit 255)))] }
-def fn_GetLow16.v_key : Nat := 0
+def fn_GetLow16.names : List (String × Nat) := [("key", 0)]
 
 def ipToString_pieces : List GoSem.IpPiece := [.octet 0, .text ".", .octet 1, .text ".", .octet 2, .text ".", .octet 3]
 def ipToString_empty : String := "0.0.0.0"
